@@ -196,7 +196,7 @@ theorem reparse_group (g : Str) (hh : groupOk g = true) :
       intro r hr
       rcases hr with hr | hr
       · rw [hr]; simp [Parsed.url, fmtOpt]
-      · rw [hr]; simp [Parsed.url, fmtOpt]
+      · rw [hr]; simp [Parsed.url]
     rw [this _ (by split <;> simp), joinBase_groups g hg]
   · intro rel
     rw [parse_canonical_slashed _ _ rel hok, parseSplit_slashed _ _ _ _ _ hok]
@@ -272,7 +272,7 @@ theorem reparse_photo_path (p aid id : Str) (hh : photoPathOk p aid id = true) :
     have e2 : decide (aDot ++ aid = videosL) = false := by simp [aDot, videosL]
     simp only [List.any_cons, List.any_nil, noWatch_spec hwp, noWatch_spec hwi, wfacts.2.2.2.1, w1,
       Bool.or_false, Bool.false_eq_true, if_false, List.dropLast_cons_cons, List.dropLast_singleton, hv,
-      e1, e2, decide_false, decide_true, Bool.false_or, Bool.true_or, Bool.or_true, if_true]
+      e1, e2, decide_false, decide_true, Bool.true_or, Bool.or_true, if_true]
     unfold routePhotos
     rw [pathsplit_slashed' _ _ hok]
     by_cases hid : is_facebook_id p = true <;>
@@ -443,7 +443,7 @@ theorem reparse_photo_query (id : Str) (gid aid : Option Str) (hh : photoQueryOk
     | none =>
       cases aid with
       | none =>
-        simp [photoItems, qsItem, qsHas, qsValues, getIdx, bind, Except.bind, pure, Except.pure, k1, k2]
+        simp [photoItems, qsItem, qsHas, qsValues, getIdx, bind, Except.bind, pure, Except.pure, k2]
       | some a =>
         simp [photoItems, qsItem, qsHas, qsValues, getIdx, bind, Except.bind, pure, Except.pure, k1, k2,
           setId_skip _ _ _ (hag a), setId_nil, setId_hit aDot a [] (hae a) (hne' a ha)]
